@@ -214,26 +214,7 @@ def r_C33c_C34g(root):
     out = []; inst = 0
     t = load(root, M); drv = find_i(root, M, "parse_tree_to_objgraph")
     pn = find_i(root, M, "parse_tree_to_objgraph.process_node"); fi = sem.info(pn)
-    # ---- C33.c
-    for q in ("parse_tree_to_objgraph.process_node", "parse_tree_to_objgraph.process_match"):
-        try: fn = find(t, q)
-        except AnalysisError: continue
-        fx = sem.info(fn)
-        for c in [c for c in calls(fn, own=True) if callee_name(c) == "process" and "metamodel" in ast.unparse(c.func)]:
-            kw = {k.arg: k.value for k in c.keywords}
-            for f in ("line", "col"):
-                if f not in kw or not isinstance(kw[f], ast.Name): continue
-                inst += 1
-                n = fx.node_of(c); ds = fx.rd.defs_of(n, kw[f].id); okc = bool(ds)
-                for d in ds:
-                    a = fx.cfg.nodes[d].ast
-                    src = _u(a.value) if isinstance(a, ast.Assign) else ""
-                    p0 = fn.args.args[0].arg if fn.args.args else "node"
-                    is_call = isinstance(a, ast.Assign) and isinstance(a.value, ast.Call) and callee_name(a.value) == "pos_to_linecol"      # the conversion itself, not `x or pos_to_linecol(...)`
-                    if not (is_call and (src.endswith("pos_to_linecol(%s.position)" % p0) or src.endswith("pos_to_linecol(node.position)"))):
-                        okc = False
-                        out.append(Finding("C33", "C33.c", M, q, " ".join(ast.unparse(a).split())[:100] if a is not None else kw[f].id, "the %s reported for a failing match processor is not computed from the start of the match (node.position)" % f, witness="use_regexp_group=True, /<<<(.*?)>>>/ with a failing processor"))
-                ob("C33", "C33.c", M, q, "%s of the match processor call" % f, okc)
+    # C33.c (line/col handed to a match processor) is decided by evaluation: C13.h (sa/rules/cpn.py)
     # ---- C34.g
     fd = sem.info(drv); cfg = fd.cfg
     sorts = [c for c in calls(drv, own=True) if callee_name(c) == "sort" and "pos_crossref_list" in ast.unparse(c.func)]
